@@ -84,11 +84,16 @@ void showValue(const Case &c, std::ostream &os) { os << to_text(c); }
 // child side: executes one case under the scheduler and reports through fd `g_out`
 // ====================================================================================================
 int g_out = 2;
+// VERIF_PROP=C20: the thread programs of C05 are run for ONE question only - does a library block stay allocated after every thread was
+// joined, every handle unreferenced and every key released (under every explored interleaving of first uses, exits and releases)?
+// Verdicts of other classes belong to C05 and are not C20's to report.
+bool g_as_c20 = false;
 void child_fail(const char *klass, const string &msg) {
+  if (g_as_c20 && strcmp(klass, "residual-blocks")) { dprintf(g_out, "RESULT ok 0 0\n"); _exit(0); }
   dprintf(g_out, "RESULT fail %s %s\n", klass, msg.c_str());
   _exit(1);
 }
-void on_verdict(const char *klass, const string &msg) { dprintf(g_out, "RESULT fail %s %s\n", klass, msg.c_str()); }
+void on_verdict(const char *klass, const string &msg) { if (g_as_c20) { dprintf(g_out, "RESULT ok 0 0\n"); return; } dprintf(g_out, "RESULT fail %s %s\n", klass, msg.c_str()); }
 #define API(name, expr) ([&] { vs::self->in_api = 1; vs::self->api_name = name; auto _r = (expr); vs::self->in_api = 0; return _r; }())
 
 struct Record { volatile long counter = 0; volatile long check = 0; };
@@ -776,6 +781,7 @@ void run_child(const Case &c) {
     for (int k = 0; k < g.nkeys; k++) if (g.keys[(size_t)k]) p_uthread_local_free(g.keys[(size_t)k]);
     long left = (long)va::live_count() - (long)live0;
     dprintf(g_out, "STAT residual_blocks %ld\n", left);
+    if (g_as_c20 && left > 0) child_fail("residual-blocks", std::to_string(left) + " library block(s) are still allocated after every thread was joined or had finished, every handle was unreferenced and every TLS key released (the same program leaves none behind under other interleavings)");
     nontrivial = g.first_before_create_return || g.last_ref_dropped_before_start || g.unref_vs_exit_overlap;
     dprintf(g_out, "STAT thread_ran_before_create_returned %d\nSTAT last_ref_dropped_before_thread_start %d\nSTAT unref_overlaps_running_thread %d\n", (int)g.first_before_create_return, (int)g.last_ref_dropped_before_start, (int)g.unref_vs_exit_overlap);
   }
@@ -961,7 +967,7 @@ void exec(const string &sub, const Case &c, bool rc_mode) {
   vl::stats().record(text, o.nontrivial, o.fp ? o.fp : vl::fnv1a(text));
   for (auto &kv : o.stats) if (kv.second > 0) vl::stats().klass("cases_with_" + kv.first);
   if (!o.verdict.empty()) {
-    vl::report_failure(sub, text, c.prop + ":" + o.klass + ": " + o.verdict, o.klass);
+    vl::report_failure(sub, text, (g_as_c20 ? string("C20") : c.prop) + ":" + o.klass + ": " + o.verdict, o.klass);
     if (rc_mode) RC_FAIL(o.verdict);
     g_failed++;
   }
@@ -1024,6 +1030,7 @@ vector<Case> shapes_for(const string &prop) {
 
 int run_generated() {
   string prop = vl::env("VERIF_PROP", "C01");
+  if (prop == "C20") prop = "C05";
   bool thorough = vl::env("VERIF_TIER", "quick") == "thorough";
   long shard = vl::envl("VERIF_SHARD", 0), nshards = vl::envl("VERIF_NSHARDS", 1);
   string sub = vl::env("VERIF_SUB", "all");
@@ -1045,12 +1052,13 @@ string run_replay(const string &text) {
   if (!from_text(text, c)) return "unparsable case";
   Outcome o = run_case_forked(c);
   if (o.inconclusive) { printf("INCONCLUSIVE\n"); return ""; }
-  return o.verdict.empty() ? "" : c.prop + ":" + o.klass + ": " + o.verdict;
+  return o.verdict.empty() ? "" : (g_as_c20 ? string("C20") : c.prop) + ":" + o.klass + ": " + o.verdict;
 }
 } // namespace
 
 int main(int argc, char **argv) {
   PMemVTable t; t.f_malloc = va::v_malloc; t.f_realloc = va::v_realloc; t.f_free = va::v_free;
   p_libsys_init_full(&t);
+  g_as_c20 = vl::env("VERIF_PROP", "") == "C20";
   return vl::harness_main(argc, argv, run_generated, run_replay);
 }
